@@ -244,6 +244,15 @@ def run(ctx):
     decorate(ad, ctx.rng, index, p_style=0.25, p_anim=0.2)
     jobs.append((ad, rid, None, False, True))
     origin[rid] = ad
+  # wide / long documents: dozens to hundreds of siblings in chronological order, with the odd untimed one among them
+  from ..docgen import long_doc
+  for _ in range(20 if thorough else 5):
+    rid += 1
+    ad = long_doc(ctx.rng, count=ctx.rng.choice([33, 40, 64, 101, 130, 260]), untimed=True)
+    if ctx.rng.random() < 0.5:
+      decorate(ad, ctx.rng, index, p_style=0.05, p_anim=0.03)
+    jobs.append((ad, rid, None, False, True))
+    origin[rid] = ad
   recs2 = observe_all(jobs)
   good = [r for r in recs2 if "error" not in r]
   ctx.count("sweep_documents_that_raised(not judged here)", len(recs2) - len(good))
